@@ -38,6 +38,8 @@ type Contract struct {
 	KeyedDec   map[string]Clause
 	KeyOrder   []string            // loop keys in order of first appearance in the contract
 	Preserves  map[string][]SExpr  // preserves[call f#k] designators: the caller assumes the call leaves these locations unchanged
+	PreserveAll map[string]bool    // preserves[call f#k] * : the call changes no location that existed before it (it may allocate)
+	Assumes    map[string][]Clause // assume[call f#k] e : trusted call-site assumption about the environment (results as result, result1, ...)
 	Closures   map[int]Clause      // closure[k]: functional specification of the k-th function literal ($0, $1 ... are its parameters)
 	Asserts    map[string][]Clause // "call os.Symlink#0" -> assertions checked right before that call
 	Modifies   []SExpr
@@ -378,7 +380,7 @@ func parseFuncHeader(hdr string) (*ast.FuncDecl, error) {
 func parseClauses(c *Contract, d *directive) error {
 	// group continuation lines into clauses
 	var clauses []string
-	kw := regexp.MustCompile(`^(requires|ensures|invariant|decreases|assert|closure|preserves|modifies|let|pure|trusted|noinline)\b`)
+	kw := regexp.MustCompile(`^(requires|ensures|invariant|decreases|assert|assume|closure|preserves|modifies|let|pure|trusted|noinline)\b`)
 	for _, ln := range d.lines {
 		if kw.MatchString(ln) {
 			clauses = append(clauses, ln)
@@ -440,6 +442,11 @@ func parseClauses(c *Contract, d *directive) error {
 				}
 				if c.Preserves == nil {
 					c.Preserves = map[string][]SExpr{}
+					c.PreserveAll = map[string]bool{}
+				}
+				if strings.TrimSpace(m[4]) == "*" {
+					c.PreserveAll[key] = true
+					continue
 				}
 				for _, part := range splitTop(m[4]) {
 					e, err := parseSpec(part)
@@ -469,6 +476,19 @@ func parseClauses(c *Contract, d *directive) error {
 					c.Closures = map[int]Clause{}
 				}
 				c.Closures[n] = clause
+			case "assume":
+				key := strings.Join(strings.Fields(m[3]), " ")
+				if !strings.HasPrefix(key, "call ") {
+					return fmt.Errorf("assume[call <callee>#k] expected: %q", cl)
+				}
+				if !strings.Contains(key, "#") {
+					key += "#0"
+				}
+				if c.Assumes == nil {
+					c.Assumes = map[string][]Clause{}
+				}
+				clause.Key = key
+				c.Assumes[key] = append(c.Assumes[key], clause)
 			case "assert":
 				key := strings.Join(strings.Fields(m[3]), " ")
 				if !strings.HasPrefix(key, "call ") && !strings.HasPrefix(key, "return") && !strings.HasPrefix(key, "backedge ") {
@@ -560,7 +580,7 @@ func ifaceMethodKey(m *types.Func) string {
 
 // splitClauseHead parses "keyword[label with [nested] brackets] text" into {whole, keyword, "[label]", label, text}.
 func splitClauseHead(cl string) []string {
-	for _, kw := range []string{"requires", "ensures", "invariant", "decreases", "assert", "closure", "preserves"} {
+	for _, kw := range []string{"requires", "ensures", "invariant", "decreases", "assert", "assume", "closure", "preserves"} {
 		if !strings.HasPrefix(cl, kw) {
 			continue
 		}
